@@ -275,3 +275,9 @@ def r12_6(ctx):
     c = P.own_method("OcpSolution", "__call__")
     rets = [ast.unparse(r.value) for r in walk_no_nested(c.node) if isinstance(r, ast.Return)]
     ctx.check(rets == ["OcpSolution(self.sol, stage=%s)" % c.params[1]], "sol(stage) re-targets the same numerical solution at that stage", detail="sol(stage)", expected="OcpSolution(self.sol, stage=stage)", found=rets, fi=c)
+
+
+@rule("R12.7", min_instances=8, desc="a coupling constraint referring to another stage's boundary value is placed exactly once (before/after complementarity, shared with C04)")
+def r12_7(ctx):
+    from .c04 import r04_6
+    r04_6(ctx)
